@@ -50,6 +50,14 @@ CLAIMED = {
             "Every object of every tree with <= 4 (thorough 5) nodes over keys {a,b,ab,ba,''} (duplicates included): FindKey for 7 probe keys (two absent, one of equal length), FindPath and Iter.FindElement for all 399 paths of length <= 3 over the probes, ForEach with all 128 filter subsets and nil, Parse/Lookup/Map. Every array of <= 2 elements over an 80-literal numeric boundary lattice (2^53, 2^63, 2^64, -2^63 and neighbouring integers and doubles as int/uint/float spellings) plus non-numeric fillers through Int/Uint/Float/Interface and AsInteger/AsUint64/AsFloat/AsString/AsStringCvt, against exact math/big range arithmetic.",
             "Floats in (-1,0) to uint are either-outcome. Filters only on objects with unique keys.",
             "DESIGN.md 4.12"),
+    "C11": ("exhaustive enumeration of bounded Serialize/Deserialize/mode-switch histories on reused objects; asm blobs re-read by a noasm build",
+            "Every history of <= 3 operations over 56+ operations {Serialize(7 small tapes incl. ND, edited, deleted-from, all number types, no-copy), CompressMode(4), Deserialize(last blob or any pre-made blob of any tape x mode into nil / reused / previously larger destination)} on one reused Serializer and destination; after each Serialize an independent Serializer must read the blob back, after each Deserialize the result must denote the source tape exactly (ordered tree, number types, float bits and flags, strict tape format). Big tapes beyond the 64 Ki tag and 64 KiB value flush blocks and with colliding string-hash buckets go through all 16 mode pairs. All pre-made blobs are re-read by a binary built with -tags noasm.",
+            "klauspost/compress as black box. Depth-3 bound on histories; tape alphabet finite.",
+            "DESIGN.md 4.11"),
+    "C19": ("exhaustive enumeration of bounded corrupt-frame spaces on the real Deserialize (trivial model: no panic / hang; result traversable)",
+            "G1: every uncompressed frame with tape size 0..4, <= 3 (thorough 4) tags over 16 tag bytes, all per-tag value options (0, wrap-to-0, tape size, 2^63, 2^64-1, ...), value count -8/exact/+8, message empty/3 bytes (3.5 M frames). G2: the complete single-edit closure (every truncation, every byte x 256 values, deletion, duplication) and all two-blob splices of valid blobs of 7 tapes in 4 modes (4 M mutants). Each is deserialized with fresh and with long-lived objects; accepted results are traversed by every walker, lookup, bulk accessor and MarshalJSON under step budgets; a watchdog turns a stuck case into a replayed, confirmed violation.",
+            "Frames declaring sizes (incl. zstd content/window size) above 2^24 are out of claim and skipped (counted).",
+            "DESIGN.md 4.19"),
 }
 
 PENDING_REASON = "check not built yet in this round (planned, see DESIGN.md section 8); not claimed until its machinery exists"
